@@ -143,8 +143,8 @@ def spec(tier, seed):
         sh = {"H": shapes.shapes_H_upto(2, 2), "D": shapes.shapes_D_upto(2, 1) + shapes.shapes_D(1, 2), "S": shapes.shapes_S_upto(3, (0,))}
         esh = {"H": shapes.shapes_H(2, 1) + shapes.shapes_H(2, 2)[:3], "D": shapes.shapes_D(2, 1)[:5], "S": shapes.shapes_S(3)[:3]}
     else:
-        sh = {"H": shapes.shapes_H_upto(3, 3), "D": shapes.shapes_D_upto(2, 2), "S": shapes.shapes_S_upto(4, (0, 1))}
-        esh = {"H": shapes.shapes_H_upto(2, 2), "D": shapes.shapes_D_upto(2, 1), "S": shapes.shapes_S_upto(3, (0,))}
+        sh = {"H": shapes.shapes_H_upto(3, 3), "D": shapes.shapes_D_upto(2, 1) + shapes.shapes_D(1, 2) + shapes.shapes_D(2, 2)[::3], "S": shapes.shapes_S_upto(4, (0,))}
+        esh = {"H": shapes.shapes_H(2, 1) + shapes.shapes_H(2, 2) + shapes.shapes_H(3, 1), "D": shapes.shapes_D(2, 1)[::2] + shapes.shapes_D(1, 2)[::2], "S": shapes.shapes_S(3) + shapes.shapes_S(2)}
     units = []
     for cls in "HDS":
         for how in ("copy", "pickle", "ctor"):
